@@ -28,10 +28,10 @@ def run(ctx):
     ]
     impl_layer(ctx, quick)
     if quick:
-        rc.lts_legs(ctx, [("MC_ReproDoc_QA.cfg", (1, 2, 3), 2500, 60, 25, 1),
-                          ("MC_ReproDoc_QB.cfg", (1, 2, 3), 2500, 60, 25, 1),
+        rc.lts_legs(ctx, [("MC_ReproDoc_QA.cfg", (1, 2, 3), 1800, 60, 25, 1),
+                          ("MC_ReproDoc_QB.cfg", (1, 2, 3), 1800, 60, 25, 1),
                           ("MC_ReproDoc_D.cfg", (1, 2), 800, 30, 6, 2),
-                          ("MC_ReproDoc_E.cfg", (1, 2), 1500, 40, 20, 1)])
+                          ("MC_ReproDoc_E.cfg", (1, 2), 1000, 40, 20, 1)])
         rc.trace_leg(ctx, 300, 20, ALLOPS)
     else:
         rc.lts_legs(ctx, [("MC_ReproDoc_A.cfg", (1, 2, 3), 30000, 600, 40, 2),
